@@ -269,11 +269,14 @@ Definition finite_store (st : store) : Prop := forall c, content_finite (cont st
 Definition no_nonfinite_b (cells : list cref) (st : store) : bool :=
   forallb (fun c => content_finite (cont st c)) cells.
 
-(* the typed path: set_user_input -> parse_formatted_number -> set_cell_with_number, no test *)
+(* the typed path: set_user_input -> parse_formatted_number -> set_cell_with_number.  [nof_text] stands for
+   the recogniser WITHOUT its finiteness test; since /repo 6e3cec0 parse_number rejects a value that
+   str::parse turned into a non-finite number, and the input is then stored like any other text that is
+   not a number (booleans and error names, which cannot hold a number either, are not distinguished here) *)
 Definition type_number (c : cref) (t : text) (st : store) : store :=
   match nof_text N t with
-  | Some v => set_cont st c (CNumber v)
-  | None => st
+  | Some v => if nis_finite N v then set_cont st c (CNumber v) else set_cont st c (CString t)
+  | None => set_cont st c (CString t)
   end.
 
 End Store.
